@@ -1773,12 +1773,15 @@ impl Checker<'_> {
                 _ => false,
             };
             if !ok {
-                self.violate(
-                    "C02",
-                    "readback-cget",
-                    "final value/version of a key differs from the accepted writes",
-                    format!("cget {k}: server {:?}, model {:?}", r, want),
-                );
+                // what cget returns at the end is C01's business (reads) as much as C02's (versions)
+                for prop in ["C02", "C01"] {
+                    self.violate(
+                        prop,
+                        "readback-cget",
+                        "final value/version of a key differs from the accepted writes",
+                        format!("cget {k}: server {:?}, model {:?}", r, want),
+                    );
+                }
             }
         }
         for (parent, r) in &rb.ls {
